@@ -41,6 +41,7 @@ type MuxBroker struct {
 type muxBrokerPending struct {
 	ch     chan net.Conn
 	doneCh chan struct{}
+	once   sync.Once
 }
 
 func newMuxBroker(s *yamux.Session) *MuxBroker {
@@ -59,7 +60,10 @@ func (m *MuxBroker) Accept(id uint32) (net.Conn, error) {
 	select {
 	case c = <-p.ch:
 		verifhook.Point("mux.accept.taking", id)
-		close(p.doneCh)
+		// An ID can be used again while the pending entry of its previous use
+		// is still waiting to be removed, in which case the new stream is
+		// parked in that same entry: its done channel is already closed.
+		p.once.Do(func() { close(p.doneCh) })
 		verifhook.Point("mux.accept.took", id)
 	case <-time.After(5 * time.Second):
 		m.Lock()
